@@ -117,6 +117,16 @@ def check_set(files, base, want_rows, duration, state, thread_file):
             bad.append(("value-unlabelled:%s:%d" % (base, ty), "%s.prv shows value %d of state type %d (%s) at t=%d, %s.pcf has no label for it" % (
                 base, v, ty, stypes[str(ty)], t, base)))
             break
+    # the value tables of the source (dumped by the translator, the ones the Coq theorem is about) are what the PCF lists
+    for ty, want in (state.get("dumped", {}).get("thread" if thread_file else "cpu", {})).items():
+        if int(ty) in pcf and base in ("thread", "cpu"):
+            have = pcf[int(ty)][1]
+            if have != want:
+                missing = sorted(set(want) - set(have))[:5]
+                extra = sorted(set(have) - set(want))[:5]
+                diff = [v for v in want if v in have and have[v] != want[v]][:5]
+                bad.append(("pcf-labels-differ:%s:%s" % (base, ty), "%s.pcf type %s: labels differ from the model's value table (missing %s, extra %s, renamed %s)" % (
+                    base, ty, missing, extra, diff)))
     if n != nrows:
         bad.append(("row-count:" + base, "%s.row names %d rows, %s.prv declares %d" % (base, n, base, nrows)))
     if want_rows is not None and names != want_rows:
@@ -145,10 +155,17 @@ def run(chk):
                        "state types are those of corpus/C13/state_types.json (pinned from the tree: types whose values are names)",
                        "breakdown files (-b) are judged by the independent checker only; the Coq model has no breakdown output"]
     state = json.load(open(os.path.join(common.VERIF, "corpus", "C13", "state_types.json")))
+    # value tables per PRV type and side, from the dump of the current source
+    dumped = {"thread": {}, "cpu": {}}
+    tyof = {(c["model"], c["side"], c["index"]): c["type"] for c in tables["chans"]}
+    for l in tables["labels"]:
+        side = "thread" if l["side"] == "th" else "cpu"
+        dumped[side].setdefault(str(tyof[(l["model"], l["side"], l["index"])]), {})[l["value"]] = l["label"]
+    state["dumped"] = dumped
     rng = chk.rng
     allm = [m["name"] for m in tables["models"] if m["name"] != "ovni"]
     scs = []
-    for i in range(chk.budget(260, 3000)):
+    for i in range(chk.budget(800, 6000)):
         r = rng.fork("w%d" % i)
         kind = i % 4
         if kind in (0, 1):
